@@ -49,7 +49,7 @@ MANIFEST = {
             "model vs the Lean spec vs a Python source-lines oracle.",
     "note": "NumPy indexing and npstructures ragged views are specified externals; GTF is read eagerly by design (not lazy), so its "
             "non-canonical integers are re-formatted: recorded as a known finding; concatenation of FASTQ / two-line FASTA tables is "
-            "eager (their buffers have no concatenate) and is checked implementation-vs-oracle at field level only.",
+            "eager (their buffers have no concatenate): modelled by Prog.evalTab, theorem eager_fields (field texts preserved).",
     "technique": "Lean 4 refinement proof (induction over programs) + differential correspondence with the implementation",
     "design": "§6 C04",
 }
@@ -58,20 +58,13 @@ _TMP = None
 
 
 def _tmp():
+    """one scratch directory per check run: created in the parent (cases() calls this before the worker pool is forked),
+    shared by the forked workers (every case gets its own uniquely named sub-directory) and removed by the parent at exit"""
     global _TMP
-    if _TMP is None or not os.path.isdir(_TMP) or _TMP_PID != os.getpid():
-        _mk()
+    if _TMP is None or not os.path.isdir(_TMP):
+        _TMP = tempfile.mkdtemp(prefix="c04_")
+        atexit.register(shutil.rmtree, _TMP, True)
     return _TMP
-
-
-_TMP_PID = None
-
-
-def _mk():
-    global _TMP, _TMP_PID
-    _TMP = tempfile.mkdtemp(prefix="c04_")
-    _TMP_PID = os.getpid()
-    atexit.register(shutil.rmtree, _TMP, True)
 
 
 # ------------------------------------------------------------------ formats
@@ -323,16 +316,17 @@ def _has_cat(p):
 
 
 def _set_op(c):
-    """GTF is never read lazily, and FASTQ / two-line FASTA buffers have no `concatenate` (the lazy tables are
-    materialised and re-formatted): those paths are outside the extractor model -> implementation vs oracle only"""
-    c["op"] = "eager" if (c["fmt"] == "gtf" or (c["fmt"] in ("fastq", "fasta2") and _has_cat(c["prog"]))) else "prog"
+    """GTF is never read lazily: outside the extractor model -> implementation vs oracle only. (FASTQ / two-line FASTA
+    buffers have no `concatenate`: their concatenations are eager and modelled by `Prog.evalTab`.)"""
+    c["op"] = "eager" if c["fmt"] == "gtf" else "prog"
     return c
 
 
 def cases(tier, rng):
+    _tmp()
     big = tier in ("thorough", "widen")
     fmts = ["bed", "bed6", "narrowpeak", "vcf", "vcfg", "sam", "fastq", "fasta2", "bam", "gtf"]
-    per = {"quick": 500, "thorough": 4000, "widen": 1200}[tier]
+    per = {"quick": 350, "thorough": 4000, "widen": 1200}[tier]
     L = 6 if big else 3
     # 0. fixed small programs on every format (identity, reverse, repeat, double selection then concatenate)
     for fmt in fmts:
